@@ -775,7 +775,9 @@ func checkHist(hc histCase) harness.Outcome {
 		loud, class, msg := loudTry(o.Res)
 		threw := class != ""
 		if threw {
-			shapeOK := loud && o.BarePanic == "" && (o.BareErr == "TypeError" || o.BareErr == "RangeError")
+			own := stepThrows(s) // the value's own toString throws: the script's own Error is the loud failure
+			loud = loud || (own && class == "Error")
+			shapeOK := loud && o.BarePanic == "" && (o.BareErr == "TypeError" || o.BareErr == "RangeError" || (own && o.BareErr == "Error"))
 			if !shapeOK {
 				if len(waived) > 0 {
 					out.Excluded = dedup(append(out.Excluded, waived...))
@@ -871,4 +873,28 @@ func stepsText(steps []step) string {
 		p = append(p, stepText(s))
 	}
 	return strings.Join(p, "; ")
+}
+
+func jvThrows(v m16.JV) bool {
+	if v.K == "sp" && v.S == "tostr-throw" {
+		return true
+	}
+	for _, e := range v.E {
+		if jvThrows(e) {
+			return true
+		}
+	}
+	return false
+}
+
+func stepThrows(s step) bool {
+	if s.Val != nil && jvThrows(*s.Val) {
+		return true
+	}
+	for _, a := range s.Args {
+		if jvThrows(a) {
+			return true
+		}
+	}
+	return false
 }
